@@ -559,6 +559,101 @@ pub fn case_strategy_pub(with_ref: bool) -> BoxedStrategy<Case> {
     case_strategy(with_ref)
 }
 
+// ---- a reference of more than 2^20 bases, SNPs on and around position 2^20 ----
+
+#[derive(Clone, Debug, Serialize, Deserialize)]
+pub struct BigRefCase {
+    pub seed: u64,
+    pub n_samples: usize,
+    pub threads: u8,
+    /// offset of the boundary site from 2^20 (-40..40)
+    pub off: i8,
+}
+
+fn bigref_strategy() -> BoxedStrategy<BigRefCase> {
+    (any::<u64>(), 3usize..=4, prop::sample::select(vec![1u8, 2, 4]), -40i8..=40)
+        .prop_map(|(seed, n_samples, threads, off)| BigRefCase { seed, n_samples, threads, off })
+        .boxed()
+}
+
+fn check_bigref(c: &BigRefCase, ctx: &Ctx) -> Outcome {
+    let k = 31usize;
+    let mut x = c.seed | 1;
+    let mut next = move || {
+        x = crate::engine::splitmix64(x);
+        x
+    };
+    let len = (1usize << 20) + 20_000 + (c.seed % 5000) as usize;
+    let anc: Vec<u8> = (0..len).map(|_| model::BASES[(next() >> 11) as usize % 4]).collect();
+    let b = ((1i64 << 20) + c.off as i64) as usize;
+    // sites >= 2k apart: far from the boundary, on / next to it, a little behind it, near the end
+    let pos: Vec<usize> = vec![300_000 + (c.seed % 1000) as usize, b, b + 2 * k + 5 + (c.seed % 50) as usize, len - 5000];
+    let mut truth: std::collections::BTreeMap<usize, Vec<u8>> = std::collections::BTreeMap::new();
+    let mut fwd: Vec<Vec<u8>> = vec![anc.clone(); c.n_samples];
+    for (si, p) in pos.iter().enumerate() {
+        let ai = model::BASES.iter().position(|q| *q == anc[*p]).unwrap();
+        let mut al = Vec::new();
+        for j in 0..c.n_samples {
+            // sample (si % n) and the one after it deviate, the one after it with a third allele at odd sites
+            let rot = if j == si % c.n_samples { 1 } else if j == (si + 1) % c.n_samples && si % 2 == 1 { 2 } else { 0 };
+            let base = model::BASES[(ai + rot) % 4];
+            fwd[j][*p] = base;
+            al.push(base);
+        }
+        truth.insert(*p, al);
+    }
+    let samples: Vec<Sample> = fwd.iter().enumerate().map(|(j, s)| (gen::set_sample_name(j), vec![if (c.seed >> j) & 1 == 1 { model::revcomp(s) } else { s.clone() }])).collect();
+    let dir = ctx.case_dir();
+    let r: Result<(), Outcome> = (|| {
+        must_ok(&build(ctx, &dir, "x", &samples, k, true, 1), "ska build")?;
+        cli::write_fasta(&dir.join("ref.fa"), &["refname".to_string()], &[anc.clone()], Some(80));
+        let ts = c.threads.to_string();
+        must_ok(&run_ska(ctx, &dir, &["lo", "x.skf", "out", "-r", "ref.fa", "--threads", &ts]), "ska lo -r on a 1 Mb reference")?;
+        let vcf = parse_lo_vcf(&std::fs::read_to_string(dir.join("out_snps.vcf")).map_err(|e| Outcome::Fail(format!("out_snps.vcf: {e}")))?).map_err(Outcome::Fail)?;
+        let mut called = Vec::new();
+        for (_chrom, p0, refb, alts, gts) in &vcf.recs {
+            let Some(t) = truth.get(p0) else {
+                return Err(Outcome::Fail(format!("SNP reported at reference position {} where nothing was planted (planted: {:?})", p0 + 1, truth.keys().map(|x| x + 1).collect::<Vec<_>>())));
+            };
+            if refb.as_bytes() != [anc[*p0]] {
+                return Err(Outcome::Fail(format!("position {}: REF={refb}, reference base is {}", p0 + 1, anc[*p0] as char)));
+            }
+            called.push(*p0);
+            let mut alleles = vec![refb.clone()];
+            alleles.extend(alts.iter().cloned());
+            for (j, gt) in gts.iter().enumerate() {
+                let dec = gt.parse::<usize>().ok().and_then(|i| alleles.get(i).cloned());
+                if dec.as_deref().map(|s| s.as_bytes()) != Some(&[t[j]][..]) {
+                    return Err(Outcome::Fail(format!("position {} sample {j}: GT={gt} decodes to {:?}, true base {}", p0 + 1, dec, t[j] as char)));
+                }
+            }
+        }
+        for p in truth.keys() {
+            if !called.contains(p) {
+                return Err(Outcome::Fail(format!("the isolated SNP planted at reference position {} (2^20 = 1048576) is not reported; reported: {:?}", p + 1, called.iter().map(|x| x + 1).collect::<Vec<_>>())));
+            }
+        }
+        let pg = read_aln(&dir.join("out_pseudo_genomes.fas")).map_err(Outcome::Fail)?;
+        if pg.len() != c.n_samples || pg.iter().any(|x| x.1.len() != len) {
+            return Err(Outcome::Fail(format!("pseudo-genome lengths {:?}, reference length {len}", pg.iter().map(|x| x.1.len()).collect::<Vec<_>>())));
+        }
+        for (j, (_, s)) in pg.iter().enumerate() {
+            for (p, t) in &truth {
+                if s[*p] != t[j] {
+                    return Err(Outcome::Fail(format!("pseudo-genome of sample {j} has {} at called position {}, true base {}", s[*p] as char, p + 1, t[j] as char)));
+                }
+            }
+        }
+        Ok(())
+    })();
+    ctx.done(&dir);
+    match r {
+        Err(Outcome::Fail(m)) => Outcome::Fail(format!("k=31 reference of {len} bases (seed {}), {} samples, threads {}, boundary site at {}: {m}", c.seed, c.n_samples, c.threads, b + 1)),
+        Err(o) => o,
+        Ok(()) => pass(true, key_of(&(c.seed, c.n_samples, c.threads, c.off)), vec!["reference>2^20"]),
+    }
+}
+
 pub fn messy_strategy_pub() -> BoxedStrategy<MessyCase> {
     messy_strategy()
 }
@@ -567,6 +662,7 @@ fn stages(tier: Tier) -> Vec<Box<dyn Stage>> {
     vec![
         gen_stage_show("reference_free", RULE_A, tier.pick(1200, 16_000), 150, || case_strategy(false), check_free, show),
         gen_stage_show("with_reference", RULE_B, tier.pick(640, 8000), 150, || case_strategy(true), check_ref, show),
+        gen_stage_show("large_reference", "a random reference of 2^20 + 20000..25000 bases, 3-4 samples (random orientation) with four isolated SNPs: one far in front, one at 2^20 - 40 .. 2^20 + 40, one 2k+5..2k+55 behind it, one near the end (bi- and tri-allelic); k=31, ska lo -r with 1/2/4 threads. Oracle: exactly the four sites, true REF and alleles per sample, pseudo-genomes of reference length with the true bases at the sites. Every case non-trivial.", tier.pick(4, 48), 2, bigref_strategy, check_bigref, |c| serde_json::to_value(c).unwrap()),
         gen_stage_show("well_formed", RULE_C, tier.pick(800, 10_000), 150, messy_strategy, check_messy, |c| json!({"k": c.k, "m": c.m, "samples": messy_samples(c).iter().map(|s| lossy(&s.1[0])).collect::<Vec<_>>()})),
     ]
 }
